@@ -279,8 +279,8 @@ def tasks_for(pid, tier):
         full = [0, 5, 11, 47, 48, 52, 60, 64, 68, 73, 76, 78, 79]
         return ds("io", 6, allv, jobs=5) + ds("io", 1, full, mode="db", jobs=8, env={"VX_IO_FULL": 1})
     if pid == "C16":
-        allv = list(range(0, 28))
-        small = [0, 1, 2, 3, 5, 6, 7, 13, 14, 15, 20, 21, 22, 27]
+        allv = variants("cancel")           # 4 source kinds x 8 life-cycle points, variant = kind * 8 + point
+        small = [v for v in allv if v % 8 in (0, 1, 5, 6, 7) or v in (2, 3)]
         if q:
             return ds("cancel", 1, [v for v in allv if v not in small], jobs=6) + ds("cancel", 2, small, jobs=6)
         return ds("cancel", 2, [v for v in allv if v not in small], jobs=8) + ds("cancel", 3, small, jobs=8)
